@@ -295,7 +295,12 @@ func Parse(expr string) (node *yqlib.ExpressionNode, out Outcome) {
 // JSONResults evaluates expr on a JSON/YAML input and returns one compact
 // JSON text per result ("yq -o=json -I0").
 func JSONResults(expr, input string, inFmt string) ([]string, Outcome) {
-	o := Run(expr, input, Opts{In: inFmt, Out: "json", IndentSet: true, Indent: 0})
+	return JSONResultsAll(expr, input, inFmt, false)
+}
+
+// JSONResultsAll is JSONResults with the documents evaluated together (eval-all) when all is set
+func JSONResultsAll(expr, input string, inFmt string, all bool) ([]string, Outcome) {
+	o := Run(expr, input, Opts{In: inFmt, Out: "json", IndentSet: true, Indent: 0, EvalAll: all})
 	if !o.OK() {
 		return nil, o
 	}
